@@ -27,6 +27,8 @@ type step struct {
 	Kind  string   `json:"kind,omitempty"`  // write: what a failing shard write leaves behind
 	Kinds []string `json:"kinds,omitempty"` // damage: per shard
 	Fresh bool     `json:"fresh,omitempty"` // damage: restore all shard files to their as-written content first
+	// damage: this step and the read that follows it may be left out when the crash gate says so (see crashGate)
+	Skippable bool `json:"skippable,omitempty"`
 }
 
 type traceplan struct {
@@ -39,10 +41,13 @@ type traceplan struct {
 }
 
 type plan struct {
-	Root    string      `json:"root"`
-	Seed    int64       `json:"seed"`
-	Workers int         `json:"workers"`
-	Traces  []traceplan `json:"traces"`
+	Root    string `json:"root"`
+	Seed    int64  `json:"seed"`
+	Workers int    `json:"workers"`
+	// crash gate (0 = off): see crashGate
+	CrashStreakLimit int         `json:"crash_streak_limit"`
+	CrashResample    int         `json:"crash_resample"`
+	Traces           []traceplan `json:"traces"`
 }
 
 type event map[string]any
@@ -86,6 +91,7 @@ func replayMain(planPath, outPath string) error {
 	if err := os.MkdirAll(pl.Root, 0o755); err != nil {
 		return err
 	}
+	gate = &crashGate{limit: pl.CrashStreakLimit, resample: pl.CrashResample, streak: map[string]int{}, seen: map[string]int{}}
 	pool = newChildPool(pl.Workers/2+1, pl.Workers)
 	defer pool.close()
 	results := make([][]event, len(pl.Traces))
